@@ -13,17 +13,21 @@ EXTENDS Sampler, TLC, Json, IOUtils
 VARIABLES l, st
 
 Rec == ndJsonDeserialize(IOEnv.TRACE)
-InitState == [data |-> <<>>, w |-> 0, K |-> 0, mode |-> "", active |-> <<>>, starts |-> <<>>, step |-> 0]
+InitState == [data |-> <<>>, cnt |-> <<>>, w |-> 0, K |-> 0, mode |-> "", active |-> <<>>, starts |-> <<>>, step |-> 0]
 
 Abs(x) == IF x < 0 THEN -x ELSE x
 
 \* observation p = [active, starts, motif, bg (round(f * 2^16)), n]
-ObsWhy(data, w, K, p) ==
+ObsWhy(data, cnt, w, K, p) ==
   IF ~StartsInRange(data, w, p.active, p.starts) THEN "start_outside_sequence"
   ELSE IF p.motif # MotifOf(data, w, K, p.active, p.starts, -1) THEN "motif_is_not_the_window_counts"
-  ELSE LET bc == BgCountsOf(data, w, K, p.active, p.starts)
+  ELSE LET bc == BgCountsFrom(cnt, data, w, K, p.active, p.starts)     \* = BgCountsOf(data, ...) (MC_Sampler: BgSame)
            tot == PlainSum(bc, K)
-       IN IF tot > 0 /\ \E k \in 1..K : Abs(p.bg[k] * tot - bc[k] * 65536) > tot
+           \* bg[k] = round(f * 2^16): exact cross-multiplication while it fits 32 bits, otherwise (data sets with tens of
+           \* thousands of symbols) against the quotient at 12 bits, 40 / 65536 of slack
+           off(k) == IF tot < 30000 THEN Abs(p.bg[k] * tot - bc[k] * 65536) > tot
+                     ELSE Abs(p.bg[k] - 16 * ((bc[k] * 4096) \div tot)) > 40
+       IN IF tot > 0 /\ \E k \in 1..K : off(k)
           THEN "background_is_not_the_outside_counts"
           ELSE "ok"
 
@@ -31,12 +35,13 @@ Apply(s, e) ==
   IF e.ret # "ok" THEN [ok |-> FALSE, st |-> s, exp |-> [why |-> "panic"]]
   ELSE
   CASE e.ev = "smp_new" ->
-         LET why == ObsWhy(e.data, e.w, e.K, e.post) IN
+         LET cnt == DataCounts(e.data, e.K)
+             why == ObsWhy(e.data, cnt, e.w, e.K, e.post) IN
          [ok |-> why = "ok" /\ (e.mode = "oops" => Len(e.post.active) = Len(e.data)),
-          st |-> [data |-> e.data, w |-> e.w, K |-> e.K, mode |-> e.mode, active |-> e.post.active, starts |-> e.post.starts, step |-> 0],
+          st |-> [data |-> e.data, cnt |-> cnt, w |-> e.w, K |-> e.K, mode |-> e.mode, active |-> e.post.active, starts |-> e.post.starts, step |-> 0],
           exp |-> [why |-> why]]
     [] e.ev = "smp_step" ->
-         LET why == ObsWhy(s.data, s.w, s.K, e.post)
+         LET why == ObsWhy(s.data, s.cnt, s.w, s.K, e.post)
              iter == MotifOf(s.data, s.w, s.K, s.active, s.starts, e.z)
              stepok == e.step = s.step
              rel == why = "ok" /\ StepOK(s.mode, Len(s.data), e.z, s.active, s.starts, e.post.active, e.post.starts)
